@@ -1,3 +1,4 @@
 CONSTANTS MaxX = 2
+WithReqClose = TRUE
 SPECIFICATION MCSpec
 INVARIANTS TypeOK NoOverread CleanReuse NoReuseAfterClose OneReplyPerRequest FinalIndependent ClosedNotUsable
